@@ -23,6 +23,9 @@ def sh(cmd, **kw):
     return subprocess.run(cmd, shell=True, stdout=subprocess.PIPE, stderr=subprocess.STDOUT, text=True, **kw)
 
 
+SNAP = None    # the checks run from a snapshot of /verif taken at start, so that work on /verif can go on meanwhile
+
+
 def one(name):
     d = os.path.join(VERIF, "seeded", name)
     meta = json.load(open(os.path.join(d, "meta.json")))
@@ -37,7 +40,7 @@ def one(name):
             return (name, prop, "patch does not apply any more", "")
         for chk in [prop] + EXTRA.get(name, []):
             t = time.time()
-            r = sh("cd %s && VERIF_REPO=%s VERIF_NOEVIDENCE=1 ./check %s --tier quick" % (VERIF, wt, chk))
+            r = sh("cd %s && VERIF_REPO=%s VERIF_NOEVIDENCE=1 ./check %s --tier quick" % (SNAP, wt, chk))
             if r.returncode == 1 and "VIOLATION property=%s" % chk in r.stdout:
                 caught.append(chk)
             elif r.returncode not in (0, 1):
@@ -59,8 +62,15 @@ def main():
         jobs, args = int(args[1]), args[2:]
     names = [n for n in sorted(os.listdir(os.path.join(VERIF, "seeded")))
              if os.path.isdir(os.path.join(VERIF, "seeded", n)) and (not args or n in args)]
-    with concurrent.futures.ThreadPoolExecutor(jobs) as ex:
-        rows = list(ex.map(one, names))
+    global SNAP
+    top = tempfile.mkdtemp(prefix="sweep-snap-")
+    SNAP = os.path.join(top, "verif")
+    shutil.copytree(VERIF, SNAP, ignore=shutil.ignore_patterns(".git", "replays", "__pycache__"))
+    try:
+        with concurrent.futures.ThreadPoolExecutor(jobs) as ex:
+            rows = list(ex.map(one, names))
+    finally:
+        shutil.rmtree(top, ignore_errors=True)
     if not args:
         with open(os.path.join(VERIF, "seeded", "STATUS.md"), "w") as fh:
             fh.write("# Seeded changes and the quick checks that catch them (written by lib/sweep_seeded.py)\n\n| seeded change | breaks | caught by | needs to manifest |\n|---|---|---|---|\n")
